@@ -296,23 +296,13 @@ theorem reject_bad_scale (scale next : Ch) (h : scale ≠ ch! '1' ∧ scale ≠ 
 
 /-- **(f)** the stack pointer as index is rejected when it is scaled or when the base is the stack
     pointer too (src/prefix.c:131) -/
-theorem reject_stack_pointer_index (s : Instr) (mi r : Nat)
-    (hbase : ¬ ((s.opd mi).reg = c_reg_none ∧ (s.opd mi).index ≠ c_reg_none))
-    (hidx : (s.opd mi).index ≠ c_reg_none) (hsp : ((s.opd mi).index &&& c_REG_MASK) = c_spl)
-    (hbad : ((s.opd mi).reg &&& c_REG_MASK) = c_spl ∨ s.sibDisp ≠ 0) :
-    getReg s mi r = .error .fail := by
-  unfold getReg
-  have h1 : ((s.opd mi).reg == c_reg_none && (s.opd mi).index != c_reg_none) = false := by
-    cases hh : ((s.opd mi).reg == c_reg_none && (s.opd mi).index != c_reg_none) with
-    | false => rfl
-    | true =>
-      simp only [Bool.and_eq_true, beq_iff_eq, bne_iff_ne] at hh
-      exact absurd hh hbase
-  simp only [h1, Bool.false_eq_true, if_false]
-  have h2 : ((s.opd mi).index == c_reg_none) = false := by simpa using hidx
-  have hset : (s.setOpd mi (s.opd mi)).sibDisp = s.sibDisp := by
-    unfold Instr.setOpd; split <;> rfl
-  simp only [h2, Bool.false_eq_true, if_false, hsp, hset]
+theorem reject_stack_pointer_index (s : Instr) (m : Operand) (r : Nat)
+    (hidx : m.index ≠ c_reg_none) (hsp : (m.index &&& c_REG_MASK) = c_spl)
+    (hbad : (m.reg &&& c_REG_MASK) = c_spl ∨ s.sibDisp ≠ 0) :
+    getRegFinish s m r = .error .fail := by
+  unfold getRegFinish
+  have h2 : (m.index == c_reg_none) = false := by simpa using hidx
+  simp only [h2, Bool.false_eq_true, if_false, hsp]
   rcases hbad with hb | hb
   · simp [hb]
   · have : (s.sibDisp != 0) = true := by simpa using hb
